@@ -415,33 +415,46 @@ def run_impl_seq(prop, hbin, ops, seed, tier, crashes=None):
 
 
 def retry_hangs(prop, hbin, env, tier, lines):
-    """A scenario that did not finish within its real-time deadline (`HANG …`) is re-run alone, twice at most:
-    on a loaded machine a scenario can simply be slow. If it hangs again the hang stands (and is judged by the
-    driver); if not, the re-run's history replaces it and the event is counted in the evidence."""
-    if prop.group_by_reset:
+    """An op that did not finish within its real-time deadline (`HANG …` of a scenario bubble, `hang` of hx.Guard) is
+    re-run alone (for `reset`-grouped harnesses: its whole case), twice at most: on a loaded machine an op can simply
+    be slow. If it hangs again the hang stands (and is judged); if not, the re-run's output replaces it and the event
+    is counted in the evidence."""
+    def is_hang(l):
+        if l.startswith("#"):
+            return False
+        impl = l.split(" | ", 1)[1] if " | " in l else ""
+        return impl.startswith("HANG") or impl == "hang"
+    idx = [i for i, l in enumerate(lines) if is_hang(l)]
+    if not idx or len(idx) > 12:
         return lines
-    out, n_retry, n_stand = [], 0, 0
-    for l in lines:
-        if l.startswith("#") or " | HANG" not in l or n_retry >= 6:
-            out.append(l)
+    out = list(lines)
+    n_retry = n_stand = 0
+    done = set()
+    for i in idx:
+        if i in done:
             continue
-        op = l.split(" | ", 1)[0]
+        lo, hi = i, i + 1
+        if prop.group_by_reset:
+            while lo > 0 and not (out[lo].split(" | ", 1)[0].split(" ")[0] == "reset"):
+                lo -= 1
+            while hi < len(out) and not out[hi].startswith("#") and out[hi].split(" | ", 1)[0].split(" ")[0] != "reset":
+                hi += 1
+        case_ops = [l.split(" | ", 1)[0] for l in out[lo:hi]]
         n_retry += 1
         repl = None
         for _ in range(2):
-            rc, o, e = sh([hbin, "run"], env=env, stdin=op + "\n", timeout=prop.run_timeout[tier])
+            rc, o, e = sh([hbin, "run"], env=env, stdin="\n".join(case_ops) + "\n", timeout=prop.run_timeout[tier])
             d = [x for x in o.splitlines() if x.strip() and not x.startswith("#")]
-            if rc == 0 and len(d) == 1 and " | HANG" not in d[0]:
-                repl = d[0]
+            if rc == 0 and len(d) == len(case_ops) and not any(is_hang(x) for x in d):
+                repl = d
                 break
         if repl is None:
             n_stand += 1
-            out.append(l)
         else:
-            out.append(repl)
-    if n_retry:
-        out.append("#stat hang.rerun-alone %d" % n_retry)
-        out.append("#stat hang.reproduced %d" % n_stand)
+            out[lo:hi] = repl
+        done.update(range(lo, hi))
+    out.append("#stat hang.rerun-alone %d" % n_retry)
+    out.append("#stat hang.reproduced %d" % n_stand)
     return out
 
 
